@@ -37,6 +37,7 @@ void putu(std::string &s, const char *k, uint64_t v) { char b[64]; snprintf(b, s
 std::string Op::to_text() const {
     std::string s = op_names[kind];
     if (prod) put(s, "prod", prod);
+    if (fw >= 0) { put(s, "fw", fw); put(s, "fb", fb); }
     switch (kind) {
         case OP_SRC: put(s, "src", src); putu(s, "gs", gs);
             for (int i = 0; i < 5; ++i) { char k[8]; snprintf(k, sizeof k, "sl%d", i); put(s, k, sl[i]); } break;
@@ -69,6 +70,7 @@ bool Op::from_text(const std::string &line) {
     if (kind < 0) return false;
     for (auto &e : kv) {
         const std::string &k = e.k;
+        if (k == "fw") fw = (int) toi(e.v); else if (k == "fb") fb = toi(e.v); else
         if (k == "prod") prod = (int) toi(e.v); else if (k == "sig") sig = (int) toi(e.v); else if (k == "src") src = (int) toi(e.v);
         else if (k == "dt") { dtype = -1; for (int i = 0; i < DT_COUNT; ++i) if (e.v == dt_name[i]) dtype = i; if (dtype < 0) return false; }
         else if (k == "a") a = toi(e.v); else if (k == "d") d = toi(e.v); else if (k == "b") b = toi(e.v); else if (k == "n") n = toi(e.v);
@@ -94,6 +96,8 @@ std::string Plan::to_text() const {
              (int) lround(faults.eintr * 1e6), (int) lround(faults.spurious_full * 1e6), faults.latency); s += b;
     for (auto &st : faults.stalls) { snprintf(b, sizeof b, "stall task=%d at=%u ns=%lld\n", st.task_kind, st.at_candidate, (long long) st.ns); s += b; }
     for (auto &j : faults.jumps) { snprintf(b, sizeof b, "jump at=%u ns=%lld\n", j.at_candidate, (long long) j.ns); s += b; }
+    if (focus_k >= 0) { snprintf(b, sizeof b, "focus_abs k=%lld b=%lld\n", (long long) focus_k, (long long) focus_b); s += b; }
+    for (auto &fl : focus) s += "alter " + fl + "\n";
     if (has_decisions) { s += "decisions"; for (uint32_t d : decisions) s += " " + std::to_string(d); s += "\n"; }
     for (auto &o : ops) s += "op " + o.to_text() + "\n";
     for (auto &o : reads) s += "rd " + o.to_text() + "\n";
@@ -123,6 +127,8 @@ bool Plan::from_text(const std::string &text, std::string *err) {
             faults.latency = (int) get("latency", 0);
         } else if (head == "stall") faults.stalls.push_back(FaultCfg::Stall{(int) get("task", 0), (uint32_t) getu("at", 0), get("ns", 0)});
         else if (head == "jump") faults.jumps.push_back(FaultCfg::Jump{(uint32_t) getu("at", 0), get("ns", 0)});
+        else if (head == "focus_abs") { focus_k = get("k", -1); focus_b = get("b", 0); }
+        else if (head == "alter") { size_t p2 = line.find(' '); focus.push_back(p2 == std::string::npos ? "" : line.substr(p2 + 1)); }
         else if (head == "decisions") { has_decisions = true; std::istringstream ds(line); std::string t; ds >> t; uint32_t d; while (ds >> d) decisions.push_back(d); }
         else if (head == "op" || head == "rd") {
             Op o; size_t p = line.find(' ');
